@@ -8,13 +8,20 @@ DST = os.path.join(os.path.dirname(os.path.dirname(os.path.abspath(__file__))), 
 
 def generate():
     meta = []
-    # autonomi/src/self_encryption.rs, whole file: encrypt / pack_data_map / wrap_data_map / DataMapLevel.
-    # self_encryption (external crate) is the ideal model of shim::self_encryption whose MAX_CHUNK_SIZE is symbolic;
-    # the one place that needs a native usize from it (a buffer capacity hint) is a checked substitution.
+    # ant-protocol/src/storage/chunks.rs, whole file: Chunk with its real Serialize/Deserialize impls and content address;
+    # the one thing changed is the *type* of serialised_size(): a size that compares with `*MAX_CHUNK_SIZE` through the solver
+    meta.append(transplant_file(
+        "ant-protocol/src/storage/chunks.rs", f"{DST}/chunks.rs",
+        {"super": "::ant_protocol::storage", "crate": "::ant_protocol"},
+        regex_subs=[(r"pub fn serialised_size\(&self\) -> usize \{\s*self\.value\.len\(\)\s*\}",
+                     "pub fn serialised_size(&self) -> crate::shim::Sz {\n        crate::shim::Sz(self.value.len())\n    }", 1)],
+        require=["impl Serialize for Chunk", "impl<'de> Deserialize<'de> for Chunk", "XorName::from_content"]))
+    # autonomi/src/self_encryption.rs, whole file, unchanged: encrypt / pack_data_map / wrap_data_map / DataMapLevel.
+    # self_encryption (external crate) is the ideal model of shim::self_encryption; `*MAX_CHUNK_SIZE` is a native usize
+    # *placeholder* that the size type recognises in comparisons and replaces by the symbolic maximum.
     meta.append(transplant_file(
         "autonomi/src/self_encryption.rs", f"{DST}/self_encryption.rs",
         {"self_encryption": "crate::shim::self_encryption", "rayon": "crate::shim::rayon", "ant_protocol": "crate::shim::ant_protocol"},
-        subs=[("BytesMut::with_capacity(*MAX_CHUNK_SIZE)", "BytesMut::with_capacity((*MAX_CHUNK_SIZE).capacity_hint())", 1)],
         require=["pub fn encrypt(", "fn pack_data_map(", "fn wrap_data_map(", "enum DataMapLevel"]))
     # the read side: items of client/utils.rs and client/data/{mod,public}.rs
     u, mu = extract_items("autonomi/src/client/utils.rs", [("fn", "fetch_from_data_map"), ("fn", "fetch_from_data_map_chunk")])
@@ -31,7 +38,7 @@ def generate():
             "use crate::shim::self_encryption::{decrypt_full_set, DataMap, EncryptedChunk};\n"
             "use crate::self_encryption::DataMapLevel;\n"
             "use bytes::Bytes;\nuse futures::stream::{FuturesUnordered, StreamExt};\nuse libp2p::kad::Quorum;\n"
-            "use std::collections::HashSet;\nuse std::future::Future;\nuse xor_name::XorName;\n"
+            "#[allow(unused_imports)]\nuse std::collections::{BTreeMap, BTreeSet, HashMap, HashSet, VecDeque};\nuse std::future::Future;\nuse xor_name::XorName;\n"
             "#[allow(unused_imports)]\nuse libp2p::kad::{Record, RecordKey};\n\n"
             + g + "\n\nimpl Client {\n" + u + "\n\n" + p + "\n}\n\n" + f + "\n"
             + take_free_helpers()
